@@ -209,3 +209,201 @@ Proof.
     { rewrite sort_set_nonempty in NP. destruct plain; [reflexivity|discriminate NP]. }
     rewrite PE. cbn [memZ existsb orb]. unfold memZ. cbn [existsb orb]. rewrite Pm. reflexivity.
 Qed.
+
+(* the week-number clause on the year's own days (stand-alone form) *)
+Lemma weekno_clause_ok r rl y month ii i :
+  normalize r = Ok rl -> spec_wf r = true -> all_opt (r_byweekno r) weekno_safe = true ->
+  1 <= y <= 9999 -> rebuild rl ii_init y month = Ok ii -> 0 <= i < year_len y ->
+  cl_weekno rl ii i = Ok (negb (in_opt (r_byweekno r) (weekno_lambda r (jan1 y + i)))).
+Proof.
+  intros HN HW Hs Hy HR Hi.
+  destruct (normalize_fields r rl HN) as (_ & _ & _ & _ & Nwn & _ & _).
+  pose proof (normalize_wkst r rl HN) as Nwk.
+  destruct (rebuild_char rl y month ii Hy HR) as (F & Cnw & Cwn).
+  unfold spec_wf in HW.
+  repeat match type of HW with _ && _ = true =>
+    let H := fresh "W" in apply andb_true_iff in HW; destruct HW as [HW H] end.
+  assert (YL : 365 <= year_len y <= 366) by (unfold year_len; destruct (is_leap y); lia).
+  unfold cl_weekno. rewrite Nwn.
+  destruct (r_byweekno r) as [l|] eqn:EL; [|reflexivity].
+  assert (NE : ne_opt (Some l) = true) by assumption.
+  assert (TT : truthy (option_map sort_set (Some l)) = true).
+  { rewrite (truthy_map_sort (Some l) NE). reflexivity. }
+  rewrite TT. rewrite Nwn in Cwn. destruct (Cwn TT) as (m & Em & Eb). rewrite Em.
+  cbn [option_map opt_list] in Eb.
+  assert (SAFE : forallb weekno_safe (sort_set l) = true) by (apply forallb_sort_set; exact Hs).
+  assert (Hk : 0 <= wkst rl <= 6).
+  { rewrite Nwk. match goal with H : between 0 6 (r_wkst r) = true |- _ => unfold between in H end. lia. }
+  destruct (wnomask_correct_calendar y (wkst rl) (sort_set l) Hk SAFE) as (m' & Em' & Lm & Pm).
+  cbv zeta in Em'. rewrite Eb in Em'. injection Em' as <-.
+  rewrite (py_nth_nth m i) by lia. cbn [bind].
+  assert (U : used_index (shape_of y) (wkst rl) i = true).
+  { unfold used_index. change (sh_ylen (shape_of y)) with (year_len y).
+    apply andb_true_iff. split; [lia|]. apply orb_true_iff. left. lia. }
+  specialize (Pm i U). unfold RRWeekThm.nzb in Pm.
+  f_equal. cbn [in_opt]. rewrite <- (existsb_sort_set (weekno_lambda r (jan1 y + i)) l).
+  replace (nth (Z.to_nat i) m 0 =? 0) with (negb (negb (nth (Z.to_nat i) m 0 =? 0))) by apply negb_involutive.
+  f_equal. rewrite Pm. rewrite Nwk. reflexivity.
+Qed.
+
+(* day_filter_correct for YEARLY + BYMONTH + nth weekdays: every day of the year *)
+Theorem day_filter_correct_yearly_bymonth_nth : forall r rl y month ii i lm,
+  normalize r = Ok rl -> spec_wf r = true -> r_freq r = YEARLY -> r_bymonth r = Some lm ->
+  truthy (bynweekday rl) = true -> all_opt (r_byweekno r) weekno_safe = true -> r_byeaster r = None ->
+  1 <= y <= 9999 -> rebuild rl ii_init y month = Ok ii -> 0 <= i < year_len y ->
+  day_rejected rl ii i = Ok (negb (day_ok r (jan1 y + i))).
+Proof.
+  intros r rl y month ii i lm HN HW Hfr Hbm TN Hs He Hy HR Hi.
+  destruct (normalize_fields r rl HN) as (Nm & _ & _ & _ & _ & Nea & _).
+  pose proof (rebuild_ii_for rl y month ii Hy HR) as F.
+  destruct (memZ (month_at y i) lm) eqn:Hmem.
+  - apply (day_filter_core r rl ii y i HN HW F Hy Hi).
+    + apply (weekday_nth_clause_yearly_months r rl y month ii i lm HN HW Hfr Hbm TN Hy HR Hi Hmem).
+    + apply (weekno_clause_ok r rl y month ii i HN HW Hs Hy HR Hi).
+    + unfold cl_easter. rewrite Nea, He. reflexivity.
+  - (* a day outside the BYMONTH months: rejected by the first clause, and by the specification *)
+    assert (EBM : bymonth rl = Some (sort_set lm)).
+    { rewrite Nm. unfold eff_bymonth. rewrite Hbm. reflexivity. }
+    assert (NEl : lm <> []).
+    { pose proof HW as HW'. unfold spec_wf in HW'.
+      repeat match type of HW' with _ && _ = true =>
+        let H := fresh "W" in apply andb_true_iff in HW'; destruct HW' as [HW' H] end.
+      assert (NE : ne_opt (r_bymonth r) = true) by assumption. rewrite Hbm in NE.
+      destruct lm; [discriminate NE|discriminate]. }
+    assert (TB : truthy (bymonth rl) = true).
+    { rewrite EBM. cbn [truthy]. pose proof (sort_set_nonempty lm) as SN.
+      destruct lm; [contradiction|]. cbn [nonempty] in SN. destruct (sort_set (z :: lm)); [discriminate SN|reflexivity]. }
+    unfold day_rejected. rewrite (cl_month_correct rl ii y F i Hi), TB, EBM. cbn [opt_list andb].
+    rewrite memZ_sort_set, Hmem. cbn [negb].
+    destruct (ymd_at y i Hi) as [EY _].
+    unfold day_ok. rewrite EY. unfold eff_bymonth. rewrite Hbm. cbn [in_opt].
+    assert (EX : existsb (Z.eqb (month_at y i)) lm = false).
+    { unfold memZ in Hmem. exact Hmem. }
+    rewrite EX. reflexivity.
+Qed.
+
+(* ------------------------------------------------------------------ rebuild across years *)
+Theorem rebuild_nth_other_year_ym : forall rl ii y m,
+  opt_neqb (lastyear ii) y = true -> freq rl = YEARLY -> truthy (bymonth rl) = true ->
+  truthy (bynweekday rl) = true -> truthy (byeaster rl) = false -> eastermask ii = None ->
+  rebuild rl ii y m = rebuild rl ii_init y m.
+Proof.
+  intros rl ii y m HL Nfr TB TN TE HE. unfold rebuild. rewrite HL, TN, TE, TB, Nfr.
+  change (lastyear ii_init) with (@None Z). change (opt_neqb None y) with true. cbv iota.
+  change (lastmonth ii_init) with (@None Z). change (opt_neqb None m) with true.
+  rewrite orb_true_r. cbn [andb orb].
+  change (YEARLY =? YEARLY) with true. cbv iota.
+  destruct (date_ord y 1 1) as [yo|e]; cbn [bind]; [|reflexivity].
+  destruct (if 365 + (if is_leap y then 1 else 0) =? 365 then _ else _) as [[[mm mdm] nmdm] mr].
+  destruct (if negb (truthy (byweekno rl)) then _ else _) as [wno|e]; cbn [bind]; [|reflexivity].
+  cbn [nwdaymask eastermask yearordinal yearlen nextyearlen yearweekday mmask mrange mdaymask nmdaymask
+       wdaymask wnomask].
+  rewrite HE. change (eastermask ii_init) with (@None (list Z)).
+  assert (NE : nonempty (map (fun m0 => py_slice mr (m0 - 1) (m0 + 1)) (opt_list (bymonth rl))) = true).
+  { destruct (bymonth rl) as [[|h t]|]; try discriminate TB. reflexivity. }
+  rewrite NE. destruct (fold_res _ _ _) as [nm|e]; cbn [bind]; reflexivity.
+Qed.
+
+Theorem rebuild_nth_succeeds_ym : forall rl y month,
+  1 <= y <= 9999 -> 0 <= wkst rl <= 6 -> freq rl = YEARLY -> truthy (bymonth rl) = true ->
+  (forall mo, In mo (opt_list (bymonth rl)) -> 1 <= mo <= 12) ->
+  truthy (bynweekday rl) = true -> truthy (byeaster rl) = false ->
+  (forall wn, In wn (opt_list (bynweekday rl)) -> pair_ok wn) ->
+  exists ii', rebuild rl ii_init y month = Ok ii'.
+Proof.
+  intros rl y month Hy Hk Nfr TB RM TN TE PK. unfold rebuild.
+  change (lastyear ii_init) with (@None Z). change (opt_neqb None y) with true. cbv iota.
+  change (lastmonth ii_init) with (@None Z). change (opt_neqb None month) with true.
+  unfold date_ord. assert (V : valid_ymd y 1 1 = true) by (unfold valid_ymd; change (dim y 1) with 31; lia).
+  rewrite V. cbn [bind]. fold (jan1 y). rewrite !year_len_365.
+  assert (T : (if year_len y =? 365
+               then (T_M365MASK, T_MDAY365MASK, T_NMDAY365MASK, T_M365RANGE)
+               else (T_M366MASK, T_MDAY366MASK, T_NMDAY366MASK, T_M366RANGE)) =
+              (fst (fst (fst (masks_for y))), snd (fst (fst (masks_for y))), snd (fst (masks_for y)),
+               RRNwdCal.mrange_of (is_leap y))).
+  { unfold masks_for, tables_of, RRNwdCal.mrange_of, year_len. destruct (is_leap y); reflexivity. }
+  rewrite T. clear T.
+  assert (W : exists wno,
+     (if negb (truthy (byweekno rl)) then Ok None
+      else do m <- build_wnomask y (year_len y) (year_len (y + 1)) (weekday_of_ord (jan1 y)) (wkst rl)
+                     (py_from T_WDAYMASK (weekday_of_ord (jan1 y))) (opt_list (byweekno rl));
+           Ok (Some m)) = Ok wno).
+  { destruct (negb (truthy (byweekno rl))); [eexists; reflexivity|].
+    destruct (wnomask_no_index_error_calendar y (wkst rl) (opt_list (byweekno rl)) Hk) as (m & Em).
+    cbv zeta in Em. rewrite Em. cbn [bind]. eexists; reflexivity. }
+  destruct W as (wno & Ew). rewrite Ew. cbn [bind]. rewrite TN, TE, TB, Nfr. cbn [andb orb yearlen mrange wdaymask].
+  change (YEARLY =? YEARLY) with true. cbv iota.
+  fold (month_ranges y (opt_list (bymonth rl))).
+  assert (NE : nonempty (month_ranges y (opt_list (bymonth rl))) = true).
+  { unfold month_ranges. destruct (bymonth rl) as [[|h t]|]; try discriminate TB. reflexivity. }
+  rewrite NE. unfold py_repeat. fold (zeros (Z.to_nat (year_len y))).
+  fold (wdm_of (weekday_of_ord (jan1 y))).
+  destruct (nwdaymask_months_calendar y (opt_list (bymonth rl)) (opt_list (bynweekday rl)) RM PK) as (m' & Ef' & _).
+  cbv zeta in Ef'. rewrite Ef'. cbn [bind]. eexists; reflexivity.
+Qed.
+
+(* ------------------------------------------------------------------ the whole YEARLY family without BYEASTER *)
+Record yfam_noe (r : raw) : Prop := mk_yfam_noe {
+  yn_wf : spec_wf r = true;
+  yn_freq : r_freq r = YEARLY;
+  yn_weekno : all_opt (r_byweekno r) weekno_safe = true;
+  yn_easter : r_byeaster r = None
+}.
+
+(* rrule_iter_correct for every YEARLY rule of the specification's domain without BYEASTER (BYWEEKNO in the
+   RFC range): plain and nth weekdays, with or without BYMONTH, BYSETPOS, COUNT, UNTIL; every fuel *)
+Theorem yearly_iter_correct_noe : forall r rl limit n,
+  normalize r = Ok rl -> yfam_noe r ->
+  fst (iterate rl limit n) = fst (spec_iter r limit n).
+Proof.
+  intros r rl limit n HN [HW Hfr Hs He].
+  destruct (plain_only r) eqn:Hp.
+  { apply (yearly_iter_correct_full r rl limit n HN). constructor; try assumption. left. exact Hp. }
+  destruct (r_bymonth r) as [lm|] eqn:Hbm.
+  2:{ apply (yearly_iter_correct_full r rl limit n HN). constructor; try assumption. right. exact Hbm. }
+  pose proof (normalize_wkst r rl HN) as Nwk.
+  pose proof (normalize_freq r rl HN) as Nfr. rewrite Hfr in Nfr.
+  pose proof (not_plain_has_nth r rl HN ltac:(rewrite Hfr; reflexivity) Hp) as TN.
+  pose proof (nth_pairs_ok r rl HN HW ltac:(rewrite Hfr; reflexivity)) as PK.
+  destruct (normalize_fields r rl HN) as (Nm & _ & _ & _ & _ & Nea & _).
+  assert (TE : truthy (byeaster rl) = false) by (rewrite Nea, He; reflexivity).
+  assert (EBM : bymonth rl = Some (sort_set lm)).
+  { rewrite Nm. unfold eff_bymonth. rewrite Hbm. reflexivity. }
+  pose proof HW as HW'. unfold spec_wf in HW'.
+  repeat match type of HW' with _ && _ = true =>
+    let H := fresh "W" in apply andb_true_iff in HW'; destruct HW' as [HW' H] end.
+  assert (AM : all_opt (r_bymonth r) (between 1 12) = true) by assumption.
+  assert (NEm : ne_opt (r_bymonth r) = true) by assumption.
+  rewrite Hbm in AM, NEm.
+  assert (TB : truthy (bymonth rl) = true).
+  { rewrite EBM. cbn [truthy]. pose proof (sort_set_nonempty lm) as SN.
+    destruct lm; [discriminate NEm|]. cbn [nonempty] in SN. destruct (sort_set (z :: lm)); [discriminate SN|reflexivity]. }
+  assert (RM : forall mo, In mo (opt_list (bymonth rl)) -> 1 <= mo <= 12).
+  { rewrite EBM. cbn [opt_list]. intros mo Hmo. apply (proj1 (In_sort_set' mo lm)) in Hmo. cbn [all_opt] in AM.
+    rewrite forallb_forall in AM. specialize (AM mo Hmo). unfold between in AM. lia. }
+  assert (Hwk : 0 <= wkst rl <= 6).
+  { rewrite Nwk. match goal with H : between 0 6 (r_wkst r) = true |- _ => unfold between in H end. lia. }
+  apply (yearly_iter_correct2 r rl HN HW Hfr).
+  - intros y m Hy. apply (rebuild_nth_succeeds_ym rl y m Hy Hwk Nfr TB RM TN TE PK).
+  - intros y m ii y' Hy Ar Hy' Hne.
+    destruct (rebuild_slots rl y m ii Hy Ar) as (LY & EM).
+    apply rebuild_nth_other_year_ym; [|exact Nfr|exact TB|exact TN|exact TE|apply EM; exact TE].
+    rewrite LY. unfold opt_neqb. apply negb_true_iff. apply Z.eqb_neq. lia.
+  - intros y m ii i Hy Ar Hi.
+    apply (day_filter_correct_yearly_bymonth_nth r rl y m ii i lm HN HW Hfr Hbm TN Hs He Hy Ar Hi).
+Qed.
+
+(* non-vacuity: the US daylight-saving rule pair in one rule -- rrule(YEARLY, dtstart=datetime(2023,1,1,2,0),
+   bymonth=(3,11), byweekday=(SU(+2), SU(-1)), count=6): second and last Sundays of March and November *)
+Definition raw_yearly_dst_example : raw :=
+  mkRaw YEARLY false 2023 1 1 2 0 0 1 0 (Some 6) None false
+        None (Some [3; 11]) None None None None (Some [(6, 2); (6, -1)]) None None None.
+Example yearly_dst_example :
+  yfam_noe raw_yearly_dst_example /\ plain_only raw_yearly_dst_example = false /\
+  match normalize raw_yearly_dst_example with
+  | Ok rl => fst (iterate rl 100 40) =
+             [(ord_of_ymd 2023 3 12, 7200); (ord_of_ymd 2023 3 26, 7200); (ord_of_ymd 2023 11 12, 7200);
+              (ord_of_ymd 2023 11 26, 7200); (ord_of_ymd 2024 3 10, 7200); (ord_of_ymd 2024 3 31, 7200)]
+  | Err _ => False
+  end.
+Proof. split; [constructor; reflexivity|split; [reflexivity|vm_compute; reflexivity]]. Qed.
